@@ -16,6 +16,9 @@ use crate::schedx::{CaseInfo, Judgement};
 
 #[derive(Clone, Debug)]
 pub struct Case {
+    /// (processes only) every opener starts a helper program (`sleep`) while it holds the database and
+    /// stays alive for a while after closing its handle: the helper must not inherit the lock
+    pub helper: bool,
     /// every opener but the first reaches the file through a hard link (another name of the same inode)
     pub hardlink: bool,
     /// this opener asks for direct_writes (O_DIRECT); a refusal by the file system (EINVAL) is a legitimate answer
@@ -43,35 +46,39 @@ pub struct Case {
 pub fn cases(tier: Tier) -> Vec<Case> {
     let q = tier == Tier::Quick;
     vec![
-        Case { hardlink: false, direct: None, stat_fault: None, grow_plain: None, sync_fault_grow: None, second_fd: false, procs: false, init_fault: None, eintr: false, openers: 2, file_exists: true, bound: if q { 6 } else { 12 } },
-        Case { hardlink: false, direct: None, stat_fault: None, grow_plain: None, sync_fault_grow: None, second_fd: false, procs: false, init_fault: None, eintr: false, openers: 2, file_exists: false, bound: if q { 4 } else { 8 } },
-        Case { hardlink: false, direct: None, stat_fault: None, grow_plain: None, sync_fault_grow: None, second_fd: false, procs: false, init_fault: None, eintr: false, openers: 3, file_exists: true, bound: if q { 2 } else { 3 } },
-        Case { hardlink: false, direct: None, stat_fault: None, grow_plain: None, sync_fault_grow: None, second_fd: false, procs: false, init_fault: None, eintr: false, openers: 3, file_exists: false, bound: if q { 2 } else { 3 } },
-        Case { hardlink: false, direct: None, stat_fault: None, grow_plain: None, sync_fault_grow: None, second_fd: false, procs: false, init_fault: None, eintr: true, openers: 2, file_exists: true, bound: if q { 3 } else { 6 } },
-        Case { hardlink: false, direct: None, stat_fault: None, grow_plain: None, sync_fault_grow: None, second_fd: false, procs: false, init_fault: None, eintr: true, openers: 3, file_exists: false, bound: if q { 1 } else { 2 } },
-        Case { hardlink: false, direct: None, stat_fault: None, grow_plain: None, sync_fault_grow: None, second_fd: false, procs: false, init_fault: Some(0), eintr: false, openers: 3, file_exists: false, bound: if q { 2 } else { 3 } },
-        Case { hardlink: false, direct: None, stat_fault: None, grow_plain: None, sync_fault_grow: None, second_fd: false, procs: false, init_fault: Some(1), eintr: false, openers: 3, file_exists: false, bound: if q { 1 } else { 2 } },
-        Case { hardlink: false, direct: None, stat_fault: None, grow_plain: None, sync_fault_grow: Some(0), second_fd: false, procs: false, init_fault: None, eintr: false, openers: 2, file_exists: true, bound: if q { 2 } else { 4 } },
-        Case { hardlink: false, direct: None, stat_fault: None, grow_plain: None, sync_fault_grow: Some(0), second_fd: false, procs: true, init_fault: None, eintr: false, openers: 2, file_exists: true, bound: if q { 3 } else { 6 } },
+        Case { helper: false, hardlink: false, direct: None, stat_fault: None, grow_plain: None, sync_fault_grow: None, second_fd: false, procs: false, init_fault: None, eintr: false, openers: 2, file_exists: true, bound: if q { 6 } else { 12 } },
+        Case { helper: false, hardlink: false, direct: None, stat_fault: None, grow_plain: None, sync_fault_grow: None, second_fd: false, procs: false, init_fault: None, eintr: false, openers: 2, file_exists: false, bound: if q { 4 } else { 8 } },
+        Case { helper: false, hardlink: false, direct: None, stat_fault: None, grow_plain: None, sync_fault_grow: None, second_fd: false, procs: false, init_fault: None, eintr: false, openers: 3, file_exists: true, bound: if q { 2 } else { 3 } },
+        Case { helper: false, hardlink: false, direct: None, stat_fault: None, grow_plain: None, sync_fault_grow: None, second_fd: false, procs: false, init_fault: None, eintr: false, openers: 3, file_exists: false, bound: if q { 2 } else { 3 } },
+        Case { helper: false, hardlink: false, direct: None, stat_fault: None, grow_plain: None, sync_fault_grow: None, second_fd: false, procs: false, init_fault: None, eintr: true, openers: 2, file_exists: true, bound: if q { 3 } else { 6 } },
+        Case { helper: false, hardlink: false, direct: None, stat_fault: None, grow_plain: None, sync_fault_grow: None, second_fd: false, procs: false, init_fault: None, eintr: true, openers: 3, file_exists: false, bound: if q { 1 } else { 2 } },
+        Case { helper: false, hardlink: false, direct: None, stat_fault: None, grow_plain: None, sync_fault_grow: None, second_fd: false, procs: false, init_fault: Some(0), eintr: false, openers: 3, file_exists: false, bound: if q { 2 } else { 3 } },
+        Case { helper: false, hardlink: false, direct: None, stat_fault: None, grow_plain: None, sync_fault_grow: None, second_fd: false, procs: false, init_fault: Some(1), eintr: false, openers: 3, file_exists: false, bound: if q { 1 } else { 2 } },
+        Case { helper: false, hardlink: false, direct: None, stat_fault: None, grow_plain: None, sync_fault_grow: Some(0), second_fd: false, procs: false, init_fault: None, eintr: false, openers: 2, file_exists: true, bound: if q { 2 } else { 4 } },
+        Case { helper: false, hardlink: false, direct: None, stat_fault: None, grow_plain: None, sync_fault_grow: Some(0), second_fd: false, procs: true, init_fault: None, eintr: false, openers: 2, file_exists: true, bound: if q { 3 } else { 6 } },
         // the holder grows the file while the others wait (every second opener maps with populate)
-        Case { hardlink: false, direct: None, stat_fault: None, grow_plain: Some(0), sync_fault_grow: None, second_fd: false, procs: false, init_fault: None, eintr: false, openers: 2, file_exists: true, bound: if q { 2 } else { 4 } },
-        Case { hardlink: false, direct: None, stat_fault: None, grow_plain: Some(0), sync_fault_grow: None, second_fd: false, procs: true, init_fault: None, eintr: false, openers: 2, file_exists: true, bound: if q { 3 } else { 6 } },
+        Case { helper: false, hardlink: false, direct: None, stat_fault: None, grow_plain: Some(0), sync_fault_grow: None, second_fd: false, procs: false, init_fault: None, eintr: false, openers: 2, file_exists: true, bound: if q { 2 } else { 4 } },
+        Case { helper: false, hardlink: false, direct: None, stat_fault: None, grow_plain: Some(0), sync_fault_grow: None, second_fd: false, procs: true, init_fault: None, eintr: false, openers: 2, file_exists: true, bound: if q { 3 } else { 6 } },
         // the waiting opener's length query fails
-        Case { hardlink: false, direct: None, stat_fault: Some(1), grow_plain: None, sync_fault_grow: None, second_fd: false, procs: false, init_fault: None, eintr: false, openers: 2, file_exists: true, bound: if q { 2 } else { 4 } },
-        Case { hardlink: false, direct: None, stat_fault: Some(1), grow_plain: None, sync_fault_grow: None, second_fd: false, procs: true, init_fault: None, eintr: false, openers: 2, file_exists: true, bound: if q { 3 } else { 6 } },
+        Case { helper: false, hardlink: false, direct: None, stat_fault: Some(1), grow_plain: None, sync_fault_grow: None, second_fd: false, procs: false, init_fault: None, eintr: false, openers: 2, file_exists: true, bound: if q { 2 } else { 4 } },
+        Case { helper: false, hardlink: false, direct: None, stat_fault: Some(1), grow_plain: None, sync_fault_grow: None, second_fd: false, procs: true, init_fault: None, eintr: false, openers: 2, file_exists: true, bound: if q { 3 } else { 6 } },
         // the second opener uses another name (hard link) of the same file
-        Case { hardlink: true, direct: None, stat_fault: None, grow_plain: None, sync_fault_grow: None, second_fd: false, procs: false, init_fault: None, eintr: false, openers: 2, file_exists: true, bound: if q { 3 } else { 6 } },
-        Case { hardlink: true, direct: None, stat_fault: None, grow_plain: None, sync_fault_grow: None, second_fd: false, procs: true, init_fault: None, eintr: false, openers: 2, file_exists: true, bound: if q { 3 } else { 6 } },
+        Case { helper: false, hardlink: true, direct: None, stat_fault: None, grow_plain: None, sync_fault_grow: None, second_fd: false, procs: false, init_fault: None, eintr: false, openers: 2, file_exists: true, bound: if q { 3 } else { 6 } },
+        Case { helper: false, hardlink: true, direct: None, stat_fault: None, grow_plain: None, sync_fault_grow: None, second_fd: false, procs: true, init_fault: None, eintr: false, openers: 2, file_exists: true, bound: if q { 3 } else { 6 } },
         // an opener that asks for direct writes, on a fresh and on an existing file
-        Case { hardlink: false, direct: Some(0), stat_fault: None, grow_plain: None, sync_fault_grow: None, second_fd: false, procs: false, init_fault: None, eintr: false, openers: 2, file_exists: false, bound: if q { 2 } else { 4 } },
-        Case { hardlink: false, direct: Some(0), stat_fault: None, grow_plain: None, sync_fault_grow: None, second_fd: false, procs: true, init_fault: None, eintr: false, openers: 2, file_exists: false, bound: if q { 3 } else { 6 } },
-        Case { hardlink: false, direct: Some(1), stat_fault: None, grow_plain: None, sync_fault_grow: None, second_fd: false, procs: true, init_fault: None, eintr: false, openers: 2, file_exists: true, bound: if q { 2 } else { 4 } },
+        Case { helper: false, hardlink: false, direct: Some(0), stat_fault: None, grow_plain: None, sync_fault_grow: None, second_fd: false, procs: false, init_fault: None, eintr: false, openers: 2, file_exists: false, bound: if q { 2 } else { 4 } },
+        Case { helper: false, hardlink: false, direct: Some(0), stat_fault: None, grow_plain: None, sync_fault_grow: None, second_fd: false, procs: true, init_fault: None, eintr: false, openers: 2, file_exists: false, bound: if q { 3 } else { 6 } },
+        Case { helper: false, hardlink: false, direct: Some(1), stat_fault: None, grow_plain: None, sync_fault_grow: None, second_fd: false, procs: true, init_fault: None, eintr: false, openers: 2, file_exists: true, bound: if q { 2 } else { 4 } },
+        // holders that start a helper program which outlives their handle (descriptor inheritance)
+        Case { helper: true, hardlink: false, direct: None, stat_fault: None, grow_plain: None, sync_fault_grow: None, second_fd: false, procs: true, init_fault: None, eintr: false, openers: 2, file_exists: true, bound: if q { 1 } else { 3 } },
+        Case { helper: true, hardlink: false, direct: Some(0), stat_fault: None, grow_plain: None, sync_fault_grow: None, second_fd: false, procs: true, init_fault: None, eintr: false, openers: 2, file_exists: false, bound: if q { 1 } else { 3 } },
+        Case { helper: true, hardlink: false, direct: Some(1), stat_fault: None, grow_plain: Some(0), sync_fault_grow: None, second_fd: false, procs: true, init_fault: None, eintr: false, openers: 2, file_exists: true, bound: if q { 1 } else { 2 } },
         // the same bodies as real processes under the kernel's own flock
-        Case { hardlink: false, direct: None, stat_fault: None, grow_plain: None, sync_fault_grow: None, second_fd: false, procs: true, init_fault: None, eintr: false, openers: 2, file_exists: true, bound: if q { 4 } else { 12 } },
-        Case { hardlink: false, direct: None, stat_fault: None, grow_plain: None, sync_fault_grow: None, second_fd: false, procs: true, init_fault: None, eintr: false, openers: 2, file_exists: false, bound: if q { 4 } else { 8 } },
-        Case { hardlink: false, direct: None, stat_fault: None, grow_plain: None, sync_fault_grow: None, second_fd: false, procs: true, init_fault: None, eintr: false, openers: 3, file_exists: false, bound: if q { 2 } else { 3 } },
-        Case { hardlink: false, direct: None, stat_fault: None, grow_plain: None, sync_fault_grow: None, second_fd: true, procs: true, init_fault: None, eintr: false, openers: 2, file_exists: true, bound: if q { 3 } else { 6 } },
-        Case { hardlink: false, direct: None, stat_fault: None, grow_plain: None, sync_fault_grow: None, second_fd: false, procs: true, init_fault: Some(0), eintr: false, openers: 3, file_exists: false, bound: if q { 1 } else { 2 } },
+        Case { helper: false, hardlink: false, direct: None, stat_fault: None, grow_plain: None, sync_fault_grow: None, second_fd: false, procs: true, init_fault: None, eintr: false, openers: 2, file_exists: true, bound: if q { 4 } else { 12 } },
+        Case { helper: false, hardlink: false, direct: None, stat_fault: None, grow_plain: None, sync_fault_grow: None, second_fd: false, procs: true, init_fault: None, eintr: false, openers: 2, file_exists: false, bound: if q { 4 } else { 8 } },
+        Case { helper: false, hardlink: false, direct: None, stat_fault: None, grow_plain: None, sync_fault_grow: None, second_fd: false, procs: true, init_fault: None, eintr: false, openers: 3, file_exists: false, bound: if q { 2 } else { 3 } },
+        Case { helper: false, hardlink: false, direct: None, stat_fault: None, grow_plain: None, sync_fault_grow: None, second_fd: true, procs: true, init_fault: None, eintr: false, openers: 2, file_exists: true, bound: if q { 3 } else { 6 } },
+        Case { helper: false, hardlink: false, direct: None, stat_fault: None, grow_plain: None, sync_fault_grow: None, second_fd: false, procs: true, init_fault: Some(0), eintr: false, openers: 3, file_exists: false, bound: if q { 1 } else { 2 } },
     ]
 }
 
@@ -79,7 +86,7 @@ pub fn case_infos(tier: Tier) -> Vec<CaseInfo> {
     cases(tier)
         .iter()
         .map(|c| CaseInfo {
-            label: format!("{}{}openers-{}{}-c{}", if c.procs { "processes-" } else { "" }, c.openers, if c.file_exists { "existing" } else { "absent" }, if c.hardlink { "-second-name-hard-link" } else if c.direct.is_some() { "-direct-writes" } else if c.grow_plain.is_some() { "-holder-grows-file" } else if c.stat_fault.is_some() { "-lengthqueryfail" } else if c.sync_fault_grow.is_some() { "-syncfail-then-growth" } else if c.second_fd { "-second-descriptor" } else if c.eintr { "-one-EINTR" } else if let Some(i) = c.init_fault { if i == 0 { "-initfail0" } else { "-initfail1" } } else { "" }, c.bound),
+            label: format!("{}{}openers-{}{}{}-c{}", if c.procs { "processes-" } else { "" }, c.openers, if c.file_exists { "existing" } else { "absent" }, if c.helper { "-helper-program" } else { "" }, if c.hardlink { "-second-name-hard-link" } else if c.direct.is_some() { "-direct-writes" } else if c.grow_plain.is_some() { "-holder-grows-file" } else if c.stat_fault.is_some() { "-lengthqueryfail" } else if c.sync_fault_grow.is_some() { "-syncfail-then-growth" } else if c.second_fd { "-second-descriptor" } else if c.eintr { "-one-EINTR" } else if let Some(i) = c.init_fault { if i == 0 { "-initfail0" } else { "-initfail1" } } else { "" }, c.bound),
             describe: json!({"openers_are": if c.procs { "child processes released one system call at a time; flock answered by the kernel" } else { "threads; flock modelled by the scheduler" }, "openers": c.openers, "file": if c.file_exists { "exists (empty database, closed)" } else { "does not exist yet" }, "opener_body": "open(path); inside += 1; commit own marker; read all markers; yield; inside -= 1; close", "preemption_bound": c.bound}),
         })
         .collect()
@@ -118,7 +125,7 @@ fn markers(tx: &jammdb::Tx, n: usize) -> Result<Vec<usize>, String> {
 
 pub fn run_one(case: &Case, path: &str, prefix: &[u8], policy: RwPolicy) -> (ExecResult, Vec<Judgement>, String) {
     if case.procs {
-        let pc = crate::c13p::PCase { openers: case.openers, file_exists: case.file_exists, init_fault: case.init_fault, second_fd: case.second_fd, sync_fault_grow: case.sync_fault_grow, stat_fault: case.stat_fault, grow_plain: case.grow_plain, direct: case.direct, hardlink: case.hardlink };
+        let pc = crate::c13p::PCase { openers: case.openers, file_exists: case.file_exists, init_fault: case.init_fault, second_fd: case.second_fd, sync_fault_grow: case.sync_fault_grow, stat_fault: case.stat_fault, grow_plain: case.grow_plain, direct: case.direct, hardlink: case.hardlink, helper: case.helper };
         return crate::c13p::run_one(&pc, path, prefix);
     }
     let _ = std::fs::remove_file(path);
